@@ -20,7 +20,7 @@ struct Out {
    CaseOut* out = nullptr;
    std::string cls;                         // interface class of the root being swept
    std::string state;                       // factory/state label of the root
-   long long calls = 0, values = 0, refusals = 0, sequences = 0, elements = 0, out_of_range = 0, optionals_empty = 0, optionals_set = 0, objects = 0, keyed_lookups = 0;
+   long long zero_values = 0, nonzero_values = 0, calls = 0, values = 0, refusals = 0, sequences = 0, elements = 0, out_of_range = 0, optionals_empty = 0, optionals_set = 0, objects = 0, keyed_lookups = 0;
    std::set<const Node*>* seen = nullptr;
    std::vector<const Node*>* discovered = nullptr;
    std::map<std::string, long long> per_accessor;
@@ -112,7 +112,10 @@ template<class T> void touch(Out& o, const T& v, int depth, const std::string& w
       if (v.is_valid()) { ++o.optionals_set; touch(o, v.get(), depth, where + ".get"); }
       else { ++o.optionals_empty; must_refuse(o, where, "get() of the empty Optional", [&] { (void)&v.get(); }); }
    }
-   else if constexpr (std::is_enum_v<U> || std::is_arithmetic_v<U> || std::is_pointer_v<U>) { volatile auto x = v; (void)x; }
+   else if constexpr (std::is_enum_v<U> || std::is_arithmetic_v<U> || std::is_pointer_v<U>) {
+      // the value is branched on, so that a value that was never initialised is visible to memcheck (aux run)
+      if (v == U { }) ++o.zero_values; else ++o.nonzero_values;
+   }
    else if constexpr (ViewLike<U>) { std::size_t h = 0; for (std::size_t i = 0; i < v.size(); ++i) h += std::size_t(v.data()[i]); volatile auto x = h; (void)x; }
    else if constexpr (std::is_class_v<U>) { if (depth > 0) sweep_object(o, v, depth - 1, where + "."); }
 }
@@ -243,7 +246,7 @@ static void body(Ctx& C)
             out.count("accessor_calls", o.calls); out.count("calls_returning_a_value", o.values); out.count("calls_refused_with_logic_error", o.refusals);
             out.count("sequences_checked", o.sequences); out.count("sequence_elements_visited", o.elements); out.count("out_of_range_probes", o.out_of_range);
             out.count("optionals_empty", o.optionals_empty); out.count("optionals_set", o.optionals_set); out.count("keyed_lookups", o.keyed_lookups); out.count("objects_swept", o.objects);
-            out.count("nodes_swept", swept);
+            out.count("nodes_swept", swept); out.count("scalar_results_read", o.zero_values + o.nonzero_values);
             if (o.calls > 12 && o.refusals > 0 && o.sequences > 0) out.line("S\t" + J().s("kind", "node-sweep").s("class", cls).s("state", state).n("accessor_calls", o.calls).n("returned_a_value", o.values).n("refused_with_logic_error", o.refusals)
                                                                           .n("sequences_iterated", o.sequences).n("out_of_range_probes_refused", o.out_of_range).n("empty_optionals", o.optionals_empty).str());
             for (auto& [k, v] : o.per_accessor) out.eval(hash_mix(hash_bytes(k), hash_bytes(cls)));
